@@ -66,6 +66,7 @@ func report(c *cfg, results []*harnessResult, pkgFuncs map[string][]string, over
 	havocD, fpOps, unknownPaths := 0, 0, 0
 	exhaustive := true
 	outcomes := map[string]int{}
+	covers := map[string]int{}
 	var perHarness []map[string]any
 	for _, r := range results {
 		h := r.run
@@ -107,6 +108,9 @@ func report(c *cfg, results []*harnessResult, pkgFuncs map[string][]string, over
 		}
 		for _, e := range h.Errors {
 			machinery = append(machinery, h.Name+": "+e)
+		}
+		for id, n := range h.Covers {
+			covers[id] += n
 		}
 		for _, e := range r.stats.Errors {
 			machinery = append(machinery, h.Name+": solver: "+e)
@@ -270,6 +274,11 @@ func report(c *cfg, results []*harnessResult, pkgFuncs map[string][]string, over
 	for id, s := range asserts {
 		if s.Reached == 0 {
 			vacuous = append(vacuous, id)
+		}
+	}
+	for id, n := range covers {
+		if n == 0 {
+			machinery = append(machinery, "reachability witness "+id+" was never satisfied (vacuous or over-constrained harness)")
 		}
 	}
 	if len(asserts) == 0 {
